@@ -95,16 +95,17 @@ var coerceTargets = []string{"t", "list", "vector", "string", "character", "symb
 	"double-float", "short-float", "long-float", "rational", "ratio", "number", "real", "complex", "octet", "byte", "bit", "function", "octets",
 	"bit-vector", "signed-byte", "unsigned-byte", "array", "sequence", "cons", "null", "hash-table"}
 
-// known (accepted) classes of coerce results that are not of the requested type: see known_findings/C16.json
+// coerceKnown names the known finding (known_findings/C16.json) that covers a coerce result which is not of
+// the requested type; "" if none does.
 func coerceKnown(src *node, target string, res slip.Object) string {
-	switch target {
-	case "ratio", "bignum", "rational", "integer", "fixnum", "float", "single-float", "double-float", "short-float", "long-float",
-		"octet", "byte", "bit", "signed-byte", "unsigned-byte", "complex":
-		return "C16-coerce-number-keeps-representation"
-	case "vector", "list", "string", "octets", "bit-vector":
-		if res == nil {
-			return "C16-coerce-empty-sequence-is-nil"
-		}
+	h := hierarchyOf(res)
+	switch {
+	case res == nil && (target == "list" || target == "vector" || target == "octets" || target == "string" || target == "bit-vector"):
+		return "C16-nil-is-only-null"
+	case target == "short-float" && len(h) > 0 && h[0] == "single-float":
+		return "C16-short-float-is-single-float"
+	case target == "byte" && len(h) > 0 && h[0] == "octet":
+		return "C16-byte-is-octet"
 	}
 	return ""
 }
@@ -225,6 +226,9 @@ func runTypes(ctx *common.Ctx, g *gen) {
 			}
 			if id := coerceKnown(nd, target, res); id != "" {
 				ctx.Hist("coerce:known-finding")
+				if os.Getenv("VERIF_C16_NOTES") != "" {
+					ctx.Meta.Notes = append(ctx.Meta.Notes, fmt.Sprintf("coerce %s(%s) -> %s: %s of type %v", nd.show(), kn, target, slip.ObjectString(res), hierarchyOf(res)))
+				}
 				continue
 			}
 			ctx.Violate("coerce returns an object that is not of the requested type", fmt.Sprintf("(coerce %s '%s)", nd.show(), target),
@@ -292,10 +296,14 @@ func subCode(o common.Outcome) int {
 	return predCode(o)
 }
 
-// kinds whose type-of does not name a registered class: subtypep answers nil for them (known finding)
+// typeAgreeKnown: disagreements of typep and subtypep covered by known findings: the object's type-of does
+// not name a registered class (list, cons, null), or the type asked about is t, which is not a class either.
 func typeAgreeKnown(kind, tof, ty string) bool {
 	if slip.FindClass(tof) == nil {
-		return true // C16-type-of-not-a-class
+		return true // C16-list-cons-null-are-not-classes
+	}
+	if strings.EqualFold(ty, "t") && slip.FindClass("t") == nil {
+		return true // C16-t-is-not-a-class
 	}
 	return false
 }
